@@ -35,6 +35,9 @@ mod tests;
 pub mod transport_parameters;
 mod varint;
 
+#[cfg(quinn_rs_quinn_verif)]
+pub mod verif_hooks;
+
 pub use varint::{VarInt, VarIntBoundsExceeded};
 
 #[cfg(feature = "bloom")]
